@@ -86,14 +86,12 @@ theorem backrefGen_inv (hpanic : ∀ st c, I st → I (st.setPanic c)) (ctx : Ct
   · split
     · split
       · exact .once h
-      · split
-        · exact .nil _ (hpanic _ _ h)
-        · simp only
-          split
+      · simp only
+        split
+        · exact .nil _ h
+        · split
+          · exact .once h
           · exact .nil _ h
-          · split
-            · exact .once h
-            · exact .nil _ h
     · exact .once h
 
 /-! ### capture, choice, sequence -/
@@ -992,14 +990,12 @@ theorem backrefGen_nd (ctx : Ctx) (g : Nat) : GenND L (backrefGen ctx g) := by
   · split
     · split
       · exact .once
-      · split
+      · simp only
+        split
         · exact .nil _
-        · simp only
-          split
+        · split
+          · exact .once
           · exact .nil _
-          · split
-            · exact .once
-            · exact .nil _
     · exact .once
 
 theorem captureGen_nd {child : Gen} (ctx : Ctx) (g : Nat) (hc : GenND L child) :
